@@ -1,4 +1,5 @@
 import Proofs.Lemmas.FastSimOps
+import Proofs.Lemmas.FastSelect
 import Proofs.Props.C01
 /-!
 # C02 — FastSimulation and CompiledSimulation are observably identical to Simulation
@@ -26,7 +27,7 @@ local macro "shape_other" : tactic =>
     emitted expression — including the decision to drop the mask — evaluates to the documented
     function truncated to the destination width.  The mask may be dropped only because the
     arguments are in range and `sanity_check` guarantees matching widths; both facts are explicit
-    hypotheses.  (`s` is handled by `fast_select_*` below; `m`/`@`/`r` are state, see C08.) -/
+    hypotheses.  (`s` is `fast_select_eq_spec` below; `m`/`@`/`r` are state, see C08.) -/
 theorem fast_exec_eq_spec (op : Op) (args : List (Nat × Nat)) (dw : Nat)
     (hr : InRange args) (hs : SaneWidths op args) (hsel : ∀ idx, op ≠ .select idx) :
     FastSim.exec op (castArgs args) dw = ((Spec.comb op args dw : Nat) : Int) := by
@@ -123,6 +124,34 @@ theorem fast_exec_eq_pysim (op : Op) (args : List (Nat × Nat)) (dw : Nat)
     (hr : InRange args) (hs : SaneWidths op args) (hsel : ∀ idx, op ≠ .select idx) :
     FastSim.exec op (castArgs args) dw = ((PySim.exec op (castArgs args) dw : Nat) : Int) := by
   rw [fast_exec_eq_spec op args dw hr hs hsel, pysim_exec_eq_spec op args dw hr]
+
+/-- **`s` nets**: FastSimulation splits the index tuple into runs of consecutive ascending bits and
+    emits, per run, one of three shifted/masked shapes (regenerated from `make_split` on every run)
+    joined by `|`; for every index tuple within the argument (repeats, reversals, gaps), every argument
+    and destination width and every in-range value this is the documented bit selection — including
+    the elision of the outer mask when the destination is as wide as the tuple, and of the inner mask
+    when a run ends at the argument's top bit. -/
+theorem fast_select_eq_spec (idx : List Nat) (wa a dw : Nat) (ha : a < 2 ^ wa) (hi : ∀ b ∈ idx, b < wa) :
+    FastSim.exec (.select idx) (castArgs [(wa, a)]) dw
+      = ((Spec.comb (.select idx) [(wa, a)] dw : Nat) : Int) := by
+  simp only [castArgs, List.map_cons, List.map_nil, FastSim.exec, Spec.comb,
+    selectExpr_eq wa a idx ha hi, Gen.FastEmit.noMask_select]
+  by_cases h : eqW dw (idx.length : Int) = true
+  · simp only [h, ↓reduceIte]
+    have hdw : dw = idx.length := by exact_mod_cast eqW_true h
+    rw [Nat.mod_eq_of_lt (hdw ▸ selectVal_lt idx a)]
+  · simp only [h, Bool.false_eq_true, ↓reduceIte]
+    exact mask_and_nat _ _
+
+/-- … so FastSimulation and Simulation agree on select nets too -/
+theorem fast_select_eq_pysim (idx : List Nat) (wa a dw : Nat) (ha : a < 2 ^ wa) (hi : ∀ b ∈ idx, b < wa) :
+    FastSim.exec (.select idx) (castArgs [(wa, a)]) dw
+      = ((PySim.exec (.select idx) (castArgs [(wa, a)]) dw : Nat) : Int) := by
+  rw [fast_select_eq_spec idx wa a dw ha hi,
+    pysim_exec_eq_spec (.select idx) [(wa, a)] dw (by intro p hp; simp at hp; subst hp; exact ha)]
+
+-- a reversed partial select whose run ends at the top bit of a wider source (the mask matters)
+example : FastSim.exec (.select [5, 4, 3, 2, 1, 0]) (castArgs [(8, 0xC0)]) 6 = 0 := by decide
 
 -- the precedence witness: a mux net with a 2-bit destination and 4-bit data inputs
 example : FastSim.exec .mux (castArgs [(1, 1), (4, 9), (4, 15)]) 2 = 3 := by decide
